@@ -51,7 +51,8 @@ theorem C20_monotone (l : List (Labels × Nat)) (k k' : Labels) (n : Nat) :
 theorem countR_idem (w : World) (pn : String) (k : Labels) (nl : NLink) :
     (w.countR pn k nl).countR pn k nl = w.countR pn k nl := by
   by_cases h : (nl.l.srcDone && !w.countedR.contains (pn, nl.name)) = true
-  · have h1 : w.countR pn k nl = { w with received := addCtr2 w.received k (if nl.l.srcCut then nl.l.delivered.length else nl.l.sent.length) nl.l.sent.length,
+  · have h1 : w.countR pn k nl = { w with received := addCtr2 w.received k (if nl.l.srcCut then nl.l.delivered.length else nl.l.sent.length)
+                                              (if nl.l.srcCut then max nl.l.sent.length nl.l.cutHi else nl.l.sent.length),
                                           countedR := (pn, nl.name) :: w.countedR } := by
       unfold World.countR; rw [if_pos h]
     rw [h1]
